@@ -204,7 +204,7 @@ def run_one(ctl: explorer.Ctl, cfg: Dict[str, Any]) -> Dict[str, Any]:
     viol: List[dict] = []
     if status != "ok":
         obs["outcome"] = status
-        obs["violations"] = [{"sig": {"class": "did-not-finish", "status": status}, "msg": f"cfg={cfg} answer={a}: {status} {val!r}"}]
+        obs["violations"] = [{"sig": {"class": "did-not-finish", "status": status}, "msg": f"cfg={cfg} answer={a}: {status} {core.clean_repr(val)}"}]
         return obs
     okind, oval, oextra = val
     obs["outcome"] = okind
